@@ -585,6 +585,12 @@ func (fr *Frame) anchor(name string, c *blockCtx, results []Term) {
 		}
 		if a.SetName != "" {
 			t, _ := env.tr(a.C.E)
+			if sel, ok := a.SetTarget.(*ESel); ok {
+				base, _ := env.tr(sel.X)
+				key, es, _ := g.ghostField(sel.Sel)
+				g.writeCell(c.st, key, es, env.ghostBase(base, sel.X, sel.Sel), t.S)
+				continue
+			}
 			g.setGhost(c.st, a.SetName, "Nil", t.S)
 			continue
 		}
